@@ -3,14 +3,29 @@ import os, re, shutil
 from . import common as C
 
 MANIFEST = dict(
-   technique="Lean 4 proof (fromJS, a transcription of jsonschema/from.go over the JSON-Schema keyword AST, returns on every good document of a structured fragment J1 a schema that accepts exactly the valid instances; round trip as a corollary of C07; const/enum over members of every JSON kind through a model of types/literal.go's literalEqual / reflect.DeepEqual on decoded Go values, proved equal to JSON equality; strict-mode theorems over a keyword table regenerated behaviourally from the code; frame theorems of the Lean converters over a go/ast-regenerated table of the keywords every from.go function reads) + differential correspondence against FromJSONSchema/ParseAny, an independent validator on the original document and on the round-trip document, for generated documents over the whole documented keyword table incl. sibling keywords and compositions of object schemas sharing property names + structure fingerprint of the transcribed functions",
-   text="c11_equiv_partial: for every good document d of J1 (string/number with all bounds, multipleOf, pattern, listed formats, boolean, null, {}, true/false, arrays, closed tuples, objects with required properties and additionalProperties false/absent/schema, record objects, const, enum incl. mixed kinds, anyOf/oneOf/allOf, $ref), any strict flag and any strict-mode table: fromJS returns a schema s with jsValid d.doc x = acceptsDecoded s x for in-scope x. c11_roundtrip: on the closed, format-free part, jsValid (toDoc s) x = jsValid d.doc x (via C07). const and enum with members and instances of EVERY JSON kind (scalars, null, arrays, objects, mixtures, repeats, strings spelling other members' JSON text), validity by JSON equality jsonEq (Draft 2020-12; proved reflexive and symmetric): literalEqual_eq (types/literal.go's comparison never panics and IS jsonEq), c11_const (full strength), c11_enum_partial (ParseAny = some (enumValidJ vs x) outside the nullable-union class), c11_enum_null_rejected (that class, exactly), c11_enum_members_accepted, c11_members_no_panic, legacy_composite_member_panics (the code before e48d4b1); c11_roundtrip_enum / c11_roundtrip_const (ToJSONSchema of the result validates the same instances when no member is an array) with witness_roundtrip_array_const. c11_strict_rejects / c11_strict_silent / c11_strict_full_false over the regenerated keyword table; strict_rejects_iff_read, documented_are_read, converter_reads_documented and the *_frame / reads_* pairs over the go/ast-regenerated reads table. Each excluded class has a witness theorem and a replayed instance.",
-   note="PARTIAL: outside good/J1 the pinned code violates the property (integer type, nullable unions, sibling keywords next to $ref/allOf/anyOf/oneOf/const/enum/format, keywords without type, open tuples, optional properties accepting null, required on the record path, open objects closed by the round trip, strict-sided intersections, array const/enum members flattened by the round trip, strict mode unreached keywords and contentEncoding/contentMediaType): open findings. Not modelled: recursive $ref (non-object cycles would overflow the stack in from.go), user regexes beyond the five emitted shapes, array/object const/enum members below the root (root documents only), format semantics (relative to a sample universe agreed on by gozod and the validator), round trip of format schemas. Trusted as for C07.",
+   technique="Lean 4 proof (fromJS, a transcription of jsonschema/from.go over the JSON-Schema keyword AST, returns on every good document of a structured fragment J1 a schema that accepts exactly the valid instances; round trip as a corollary of C07; const/enum over members of every JSON kind through a model of types/literal.go's literalEqual / reflect.DeepEqual on decoded Go values, proved equal to JSON equality; format documents against C20's spec automata by importing C20's certificate theorems; strict-mode theorems over a keyword table regenerated behaviourally from the code; frame theorems of the Lean converters over a go/ast-regenerated table of the keywords every from.go function reads) + differential correspondence against FromJSONSchema/ParseAny, an independent validator on the original document and on the round-trip document, for generated documents over the whole documented keyword table incl. sibling keywords, compositions of object schemas sharing property names and every mapped format on C20's sample universes + structure fingerprint of the transcribed functions",
+   text="All property-level theorems are stated for `cur`, the hand-pinned value of the patch flags that mirrors /repo HEAD (the driver runs `cur` only); each is a corollary of a version proved for every flag setting; legacy behaviour survives in witness_* theorems only. c11_equiv_partial: for every good document d of J1 (string/number with all bounds, multipleOf, pattern, boolean, null, {}, true/false, arrays, closed tuples, objects with required properties and additionalProperties false/absent/schema, record objects, const, enum incl. mixed kinds, anyOf/oneOf/allOf over members that do not admit null, $ref), any strict flag and any strict-mode table: fromJS cur returns a schema s with jsValid d.doc x = acceptsDecoded s x for in-scope x (ASCII strings: witness_instOK_needed). c11_roundtrip: on rt cur (format-free; OPEN objects included since 5ed05fc), jsValid (toDoc s) x = jsValid d.doc x (via C07). c11_enum (FULL strength on cur: members and instances of every JSON kind, null included), c11_const, literalEqual_eq, c11_enum_members_accepted, c11_members_no_panic; c11_roundtrip_enum / c11_roundtrip_const (no array member) with witness_roundtrip_array_const. Formats: c11_format_equiv_partial (ipv4, ipv6, date, date-time: the dedicated schema's validator = the format's C20 spec automaton), parses_uuid / parses_time with witness_format_uuid_narrower / witness_format_time_no_offset, c11_format_full_false; round trip c11_format_roundtrip_ipv4, c11_format_roundtrip_ipv6_partial, witness_format_name_internal (iso_date / iso_datetime / iso_time are written as the format keyword), witness_format_ipv6_roundtrip, c11_format_roundtrip_full_false. Strict mode: c11_strict_rejects (the node that carries a rejected keyword), c11_strict_property / convProps_strict (an unsupported-keyword error of any property of a typed object reaches the caller; witness_strict_property_dropped for the code before 1871965), c11_strict_silent / c11_strict_full_false over the regenerated keyword table; strict_rejects_iff_read, documented_are_read, converter_reads_documented and the *_frame / reads_* pairs over the go/ast-regenerated reads table. fixed_* are decide'd tests.",
+   note="PARTIAL: outside good/J1 the code violates the property (integer type, sibling keywords next to $ref/allOf/anyOf/oneOf/const/enum, keywords without type, tuple items all required, optional properties accepting null, strict-sided intersections accepting keys the strict side does not know, array const/enum members flattened by the round trip, strict mode unreached keywords and contentEncoding/contentMediaType; formats: uuid / time / date-time / email / uri recognisers narrower or different from the JSON Schema formats, internal format names and the IPv6 pattern in the round trip): open findings. Nullable unions / intersections, open objects, required-without-property, integer bounds, format siblings are repaired in /repo and judged by the run; of these only open objects entered the theorems' fragment (rt) this round — good still excludes null-admitting union members. Email() and URL() have no Lean model (decided by the run against the validator). Strict mode below the root is proved for properties of a typed object only; items / prefixItems / composition members by the run. The documented column of the keyword table is cross-checked against docs/json-schema.md (Supported Conversions table, strict-mode sentence); constraint keywords the docs do not list are a harness literal (listed in the evidence). Not modelled: recursive $ref, user regexes beyond the five emitted shapes, array/object const/enum members below the root. Trusted as for C07 and C20.",
    design="DESIGN.md §5 C11")
 
-MODULES = ["Gozod.Proofs.C11", "Gozod.Proofs.C11Reads"]
-THEOREMS = ["Gozod.C11.c11_equiv_partial", "Gozod.C11.conv", "Gozod.C11.equivJ", "Gozod.C11.c11_roundtrip",
-            "Gozod.C11.c11_strict_rejects", "Gozod.C11.c11_strict_silent", "Gozod.C11.c11_strict_full_false",
+MODULES = ["Gozod.Proofs.C11", "Gozod.Proofs.C11Reads", "Gozod.Proofs.C11Format"]
+THEOREMS = [# property-level statements, for `cur` (= /repo HEAD, pinned by hand); each a corollary of its ∀-fx version
+            "Gozod.C11.c11_equiv_partial", "Gozod.C11.c11_roundtrip", "Gozod.C11.c11_enum", "Gozod.C11.c11_strict_rejects",
+            "Gozod.C11.c11_equiv_fx", "Gozod.C11.c11_roundtrip_fx", "Gozod.C11.c11_strict_rejects_fx",
+            "Gozod.C11.conv", "Gozod.C11.equivJ",
+            # strict mode below the root (AUDIT-B M7)
+            "Gozod.C11.convProps_strict", "Gozod.C11.c11_strict_property", "Gozod.C11.c11_strict_property_fixed", "Gozod.C11.witness_strict_property_dropped",
+            "Gozod.C11.witness_instOK_needed",
+            # format documents (AUDIT-B H6), against C20's spec automata
+            "Gozod.C11.c11_format_equiv_partial", "Gozod.C11.c11_format_full_false", "Gozod.C11.witness_format_uuid_narrower",
+            "Gozod.C11.witness_format_time_no_offset", "Gozod.C11.parses_ipv4", "Gozod.C11.parses_uuid", "Gozod.C11.parses_date",
+            "Gozod.C11.parses_dateTime", "Gozod.C11.parses_time", "Gozod.C11.parses_ipv6",
+            "Gozod.C11.c11_format_roundtrip_ipv4", "Gozod.C11.c11_format_roundtrip_ipv6_partial", "Gozod.C11.witness_format_name_internal",
+            "Gozod.C11.witness_format_ipv6_roundtrip", "Gozod.C11.c11_format_roundtrip_full_false",
+            "Gozod.C11.patOK_ipv4", "Gozod.C11.patOK_uuid", "Gozod.C11.patOK_date", "Gozod.C11.patOK_time", "Gozod.C11.patOK_dateTime",
+            "Gozod.C11.patOK_ipv6_partial", "Gozod.C11.getFormatSchema_table",
+            "Gozod.C11.entry_ipv4", "Gozod.C11.entry_uuid", "Gozod.C11.entry_date", "Gozod.C11.entry_dateTime", "Gozod.C11.entry_time",
+            "Gozod.C11.entry_ipv6", "Gozod.C11.c11_strict_silent", "Gozod.C11.c11_strict_full_false",
             "Gozod.C11.witness_integer_rejects_numbers", "Gozod.C11.witness_nullable_union", "Gozod.C11.witness_nullable_intersection",
             "Gozod.C11.witness_sibling_keywords_dropped", "Gozod.C11.witness_keywords_without_type",
             "Gozod.C11.witness_format_siblings_dropped", "Gozod.C11.witness_tuple_items_all_required",
@@ -61,8 +76,20 @@ def extract_table(res):
     doc = open(os.path.join(C.REPO, "docs", "json-schema.md")).read()
     if "### Supported Conversions" not in doc: return None, "docs/json-schema.md: 'Supported Conversions' table not found"
     tab = doc.split("### Supported Conversions")[1]
-    for kw in ("prefixItems", "anyOf", "oneOf", "allOf", "const", "enum", "type", "format"):
-        if ("`%s" % kw) not in tab: return None, "docs table no longer lists %s" % kw
+    tab = tab.split("\n#")[0]
+    # the documented column is DERIVED from the docs where the docs speak: first column of the "Supported Conversions" table
+    # (supported) and the "Strict mode rejects ..." sentence (explicitly unsupported); the harness literal must agree with both
+    supported = set(re.findall(r"^\|\s*`([$A-Za-z]+)", tab, re.M))
+    m = re.search(r"Strict mode rejects(.*?)\.\s", doc, re.S)
+    if not supported or not m: return None, "docs/json-schema.md: cannot read the supported table / the strict-mode sentence"
+    unsupported = set(re.findall(r"`([$A-Za-z]+)`", m.group(1)))
+    for k, d_, st in rows:
+        if k in supported and not d_: return None, "docs list %s as supported, the harness table says undocumented" % k
+        if k in unsupported and d_: return None, "docs list %s as rejected by strict mode, the harness table says documented" % k
+    res.coverage["documented_by_docs_table"] = sorted(supported)
+    res.coverage["unsupported_by_docs_sentence"] = sorted(unsupported)
+    res.coverage["documented_only_by_harness_literal"] = sorted(k for k, d_, st in rows if d_ and k not in supported)
+    res.coverage["unsupported_keywords_outside_the_table"] = sorted(unsupported - set(k for k, d_, st in rows))
     b = lambda x: "true" if x else "false"
     txt = ("-- REGENERATED by vlib/c11.py from harness-c11 (behavioural: {kw: sample} through FromJSONSchema with StrictMode)\n"
            "import Gozod.Model.FromJson\nnamespace Gozod.Gen\nopen Gozod.Jsc\n"
@@ -116,11 +143,20 @@ def make_key(known_keys, rejected):
         t = C.op_body(op).split(" ")
         why = [w for w in C.op_comment(op).replace("why=", "").split(",") if w]
         if t[1] == "kw": return "strict:" + t[2]
+        if t[1] in ("fmt", "fmtdoc", "fmtpool"):
+            name = dec(t[2])
+            if t[1] == "fmtdoc": return "fmt:%s:round-trip-format-keyword" % name
+            if t[1] == "fmtpool": return "fmt:%s:pool-dropped" % name
+            if impl != M: return "fmt:%s:unpredicted-by-model" % name      # never listed
+            p, v, r = (impl.split(" ") + ["", "", ""])[:3]
+            if p != v: return "fmt:%s:parse-%s" % (name, "rejects-valid" if v == "1" else "accepts-invalid" if p == "1" else "panics")
+            return "fmt:%s:roundtrip-%s%s" % (name, "rejects-valid" if v == "1" else "accepts-invalid", ":name-internal" if "name-internal" in why else "")
         if t[1] == "conv":
             o = impl.split(" ")
             if "panic" in o:
                 return "conv:literal-null-panics" if "( const n )" in op or " n " in op else "conv:panic"
             if impl != M: return "conv:unpredicted-by-model"
+            if "property-error-dropped" in why: return "strict:property-error-dropped"
             silent = sorted(set(n for n in other_names(op) if n not in rejected))
             for n in silent:
                 if known("strict:" + n): return "strict:" + n
@@ -134,11 +170,16 @@ def make_key(known_keys, rejected):
         why = [w for w in why if w not in ("IN-EQ", "IN-RT")]
         # A listed finding class is a region where the Lean model MIRRORS the defective behaviour (impl = model != spec).
         # A disagreement with the specification that the model does not predict is never a listed finding, whatever
-        # classes the document belongs to.  (One exception: `intersection` — allOf of object schemas with a strict side;
+        # classes the document belongs to.  (One exception, ONE direction: `intersection` — allOf of object schemas with a strict side;
         # Intersection's merging of unrecognized keys is C02/C07's open finding intersection-strict-objects and
         # `accepts (.and l r)` of Model/JsonSchema does not mirror it.)
-        if impl != M and "intersection" not in why:
+        # narrowed in round 4c to what still fails after /repo 05acb23: the implementation ACCEPTS an object the model
+        # and the validator reject (a key the strict side does not know but another side does), every other column equal.
+        mt = M.split(" ")
+        tolerated = ("intersection" in why and p == "1" and mt[0] == "0" and v == "0" and impl.split(" ")[1:] == mt[1:])
+        if impl != M and not tolerated:
             return d + ":unpredicted-by-model:" + ("+".join(why) or "none")
+        if impl != M: return d + ":intersection"
         for w in why:
             if known(d + ":" + w): return d + ":" + w
         return d + ":" + ("+".join(why) if why else "none")
@@ -175,6 +216,7 @@ def run(res):
     ops, impl, model, stats = data
     rejected = set(k for k, d, st in rows if st)
     ops2, model2 = [], []
+    unmodelled_fmt, dropped_formats = [0], []
     for o, im, m in zip(ops, impl, model):
         mm, _, why = m.partition("\t")
         t = im.split(" ")
@@ -184,6 +226,19 @@ def run(res):
             spec = "%s %s %s %s" % (t[1], t[1], t[1] if t[2] != "~" else "~", t[1] if t[3] != "~" else "~")
         elif o.startswith("c11 kw") and len(t) == 2:
             spec = im if (t[0] == "1" or t[1] == "1") else "0 1"
+        elif o.startswith("c11 fmt ") and len(t) == 3:
+            # the property on the implementation alone: Parse verdict = validator on the original = validator on the round trip
+            spec = "%s %s %s" % (t[1], t[1], t[1])
+            mt = mm.split(" ")
+            if len(mt) == 3 and "?" in mt:
+                # C20 has no model of the recogniser (Email(), URL()): these columns are decided by the run alone
+                unmodelled_fmt[0] += 1
+                mm = " ".join(a if a != "?" else b for a, b in zip(mt, t))
+        elif o.startswith("c11 fmtpool"):
+            spec = "1"
+            if im != "1": dropped_formats.append(dec(o.split(" ")[2]))
+        elif o.startswith("c11 fmtdoc"):
+            spec = mm          # the emitted keyword is judged through R of the fmt rows; here the model IS the oracle
         elif o.startswith("c11 conv"):
             # conversion must not panic; strict mode must fail iff an undocumented keyword occurs anywhere
             spec = "ok " + ("error" if other_names(o) else "ok")
@@ -202,6 +257,11 @@ def run(res):
                      + "\nre-validate the transcription, then `./check --fingerprint C11 --update`")
     for c in changed:
         if c[2] == "text": res.notes.append("source text of %s changed (structure unchanged); transcribed by %s" % (c[0], c[1]))
+    res.coverage["format_cases"] = sum(1 for o in ops2 if o.startswith("c11 fmt "))
+    res.coverage["format_cases_recogniser_unmodelled"] = unmodelled_fmt[0]
+    res.coverage["format_verdict_classes"] = {k[7:]: v for k, v in sorted((stats.get("histogram", {}) if isinstance(stats, dict) else {}).items()) if k.startswith("format:")}
+    res.coverage["formats_dropped_from_the_general_pool"] = dropped_formats
+    res.coverage["format_pool_samples_dropped"] = stats.get("format_pool_samples_dropped") if isinstance(stats, dict) else None
     res.coverage["cases_in_equivalence_fragment"] = sum(1 for o in ops2 if "IN-EQ" in C.op_comment(o))
     res.coverage["cases_in_roundtrip_fragment"] = sum(1 for o in ops2 if "IN-RT" in C.op_comment(o))
     hist = stats.get("histogram", {}) if isinstance(stats, dict) else {}
